@@ -365,9 +365,13 @@ func Expire(ctx *Context, s State, id string, fact map[string]interface{}, now i
 
 func PrepareFact(ctx *Context, givenId string, x Map) (id string, m map[string]interface{}, err error) {
 	Log(DEBUG, ctx, "PrepareFact", "givenId", givenId, "givenx", x)
+	// The fact is what was given at this moment: its own copy, also of
+	// what is nested in it.  Otherwise the caller - a script that adds
+	// one of its variables as a fact and goes on working with it - would
+	// change the stored fact in memory, and only there.
 	m = make(map[string]interface{})
 	for p, v := range x {
-		m[p] = v
+		m[p] = Copy(v)
 	}
 
 	id, err = GenId(ctx, m, givenId)
